@@ -623,6 +623,10 @@ impl<'a> Enc<'a> {
         }
         if ext_present {
             let adds = c.ext.as_ref().unwrap();
+            if adds.len() > 64 {
+                // DESIGN.md section 4: more than 64 extension additions are outside the conformance profile
+                return Err("outside the profile: more than 64 extension additions".into());
+            }
             let mut add_order: Vec<usize> = (0..adds.len()).collect();
             if is_set {
                 let tags = comp_tags(self.u, mi, c);
